@@ -3,6 +3,7 @@ package props
 import (
 	"bytes"
 	"fmt"
+	"slices"
 
 	"verifharness/connh"
 	"verifharness/core"
@@ -128,6 +129,30 @@ func genC03(env *core.Env, emit func(core.Case)) {
 			o.MaxExtLen = 14000 / (o.NOuterOpaque + o.NInnerOpaque)
 		}
 		run("large", o, gen.AllSuites[r.IntN(3)])
+	}
+	// the names do not drift: after a HelloRetryRequest and an accepted second hello the Conn still reports
+	// the server name and the ALPN list of ClientHelloInner, in the client's order
+	for rep := 0; rep < env.Pick(12, 60); rep++ {
+		for _, rc := range retryCases(r) {
+			if rc.Kind != "G" {
+				continue
+			}
+			idx++
+			s, first, rd := runRetryCase(rc, 70000)
+			w := ""
+			switch {
+			case first.Err != "-" || !first.Accepted:
+				w = "first hello of the retry history not accepted: " + first.Err
+			case rd.Err != "-":
+				w = "well-formed second hello refused: " + rd.Err
+			case s.Conn.ServerName() != rc.SNI || !slices.Equal(s.Conn.ALPNProtos(), rc.ALPN):
+				w = fmt.Sprintf("after the retry the Conn reports %q %q, ClientHelloInner says %q %q", s.Conn.ServerName(), s.Conn.ALPNProtos(), rc.SNI, rc.ALPN)
+			}
+			s.X("after a retried hello the Conn reports the names of ClientHelloInner", w)
+			emit(core.Case{Name: fmt.Sprintf("retry-names/%d", idx), Stream: "retry-names", Ops: s.Ops, Key: "retry-names",
+				Sig: fmt.Sprintf("retry-names/%d/%v", len(rc.ALPN), rc.CCS), Sample: map[string]any{"alpn": rc.ALPN, "ccs": rc.CCS}})
+			env.Count("retry-names")
+		}
 	}
 }
 
